@@ -3,7 +3,7 @@ import someip.sd as SD
 from contracts import spec_sd as SS
 from contracts.common import gen_addr
 
-FUNCTIONS = ["someip.sd._SessionStorage.check_received"]
+FUNCTIONS = ["someip.sd._SessionStorage.check_received", "someip.sd.ServiceDiscoveryProtocol.message_received", "someip.sd.ServiceDiscoveryProtocol.reboot_detected (inlined)"]
 
 ASSUMPTIONS = [
     "session storage contents are arbitrary (symbolic map over all sender addresses and both channels)",
@@ -76,7 +76,7 @@ def canary_no_detection(vc):
     vc.check(not r, "canary")
 
 
-HARNESSES = [
+HARNESSES = SS.MESSAGE_RECEIVED_OBLIGATIONS + [
     SS.ob_check_received_refines,
     ob_lemma_last_seen,
     ob_lemma_detection_rule,
